@@ -260,12 +260,12 @@ func runC01(c *h.Ctx) {
 	// float64 or json.Number document value) on either side of every
 	// comparison and arithmetic operator, as predicate check, filter and value
 	bn := []string{"0", "1", "-1", "2147483647", "2147483648", "9007199254740992", "9007199254740993", "9007199254740992.0", "9223372036854775807", "-9223372036854775808",
-		"9223372036854775806", "9.223372036854775807e18", "1e19", "0.5", "1.5", "4611686018427387904", "123456789012345678901234567890", "18446744073709551616"}
+		"9223372036854775806", "9.223372036854775807e18", "1e19", "0.5", "1.5", "4611686018427387904", "123456789012345678901234567890", "18446744073709551616", "1e308", "1.7976931348623157e308", "1e-320"}
 	k := 0
 	for _, a := range bn {
 		for _, b := range bn {
 			for _, op := range []string{"==", "!=", "<", "<=", ">", ">=", "+", "-", "*", "/", "%"} {
-				for form := 0; form < 6; form++ {
+				for form := 0; form < 8; form++ {
 					k++
 					if !c.Mine(k) {
 						continue
@@ -282,6 +282,10 @@ func runC01(c *h.Ctx) {
 						txt = fmt.Sprintf("$.a.double() %s $.b", op)
 					case 4:
 						txt = fmt.Sprintf("strict $.a %s $.b.number()", op)
+					case 6:
+						txt = fmt.Sprintf("$ ? (exists(@.a %s @.b))", op)
+					case 7:
+						txt = fmt.Sprintf("exists($.a %s $.b) || exists(-$.a) && exists(($.a %s $.b).abs())", op, op)
 					case 5:
 						txt = fmt.Sprintf("$ ? (@.a %s @.b || @.b %s %s)", map[bool]string{true: op, false: "=="}[len(op) == 2 || op == "<" || op == ">"], map[bool]string{true: op, false: "<"}[len(op) == 2 || op == "<" || op == ">"], a)
 					}
